@@ -838,7 +838,7 @@ func runRecipe(rec recipe, idx int, cfg string, thorough bool) []*outcome {
 				// quick tier: verbose runs only repeat the stdin->stdout variant
 			} else if rec.kind == "pdfi" {
 				fr := runBin(cfg, dir, nil, with(subst(rec.args, "in.pdf", "", "", ""))...)
-				o.cases = append(o.cases, [3]string{"exit", vh.Bool(fr.exit == 0), fmt.Sprintf("%x", fr.exit)})
+				o.cases = append(o.cases, [3]string{"exit", "true", fmt.Sprintf("%x", fr.exit)})
 				if fr.exit != 0 {
 					o.fail("recipe-file-variant-fails:"+rec.name, fmt.Sprintf("exit %d stderr %s", fr.exit, fr.stderr))
 					continue
@@ -846,7 +846,7 @@ func runRecipe(rec recipe, idx int, cfg string, thorough bool) []*outcome {
 				fileDoc, _ = os.ReadFile(filepath.Join(dir, "in.pdf"))
 			} else if rec.kind == "pdf" {
 				fr := runBin(cfg, dir, nil, with(subst(rec.args, "in.pdf", "f.pdf", "", ""))...)
-				o.cases = append(o.cases, [3]string{"exit", vh.Bool(fr.exit == 0), fmt.Sprintf("%x", fr.exit)})
+				o.cases = append(o.cases, [3]string{"exit", "true", fmt.Sprintf("%x", fr.exit)})
 				if fr.exit != 0 {
 					o.fail("recipe-file-variant-fails:"+rec.name, fmt.Sprintf("exit %d stderr %s", fr.exit, fr.stderr))
 					continue
@@ -914,7 +914,7 @@ func runRecipe(rec recipe, idx int, cfg string, thorough bool) []*outcome {
 				} else {
 					sr = runBin(cfg, dir, sample, with(subst(rec.args, v.in, v.out, "", ""))...)
 				}
-				o.cases = append(o.cases, [3]string{"exit", vh.Bool(sr.exit == 0), fmt.Sprintf("%x", sr.exit)})
+				o.cases = append(o.cases, [3]string{"exit", "true", fmt.Sprintf("%x", sr.exit)})
 				if sr.exit != 0 {
 					o.fail("stream-variant-fails:"+rec.name+":"+v.name, fmt.Sprintf("exit %d stderr %s", sr.exit, sr.stderr))
 					continue
@@ -971,7 +971,7 @@ func runRecipe(rec recipe, idx int, cfg string, thorough bool) []*outcome {
 		case "text":
 			fr := runBin(cfg, dir, nil, with(subst(rec.args, "in.pdf", "", "", ""))...)
 			sr := runBin(cfg, dir, sample, with(subst(rec.args, "-", "", "", ""))...)
-			o.cases = append(o.cases, [3]string{"exit", vh.Bool(fr.exit == 0), fmt.Sprintf("%x", fr.exit)}, [3]string{"exit", vh.Bool(sr.exit == 0), fmt.Sprintf("%x", sr.exit)})
+			o.cases = append(o.cases, [3]string{"exit", "true", fmt.Sprintf("%x", fr.exit)}, [3]string{"exit", "true", fmt.Sprintf("%x", sr.exit)})
 			if fr.exit != sr.exit {
 				o.fail("text-exit-status-differs:"+rec.name, fmt.Sprintf("file %d (%s) stdin %d (%s)", fr.exit, trunc(string(fr.stderr), 200), sr.exit, trunc(string(sr.stderr), 200)))
 				continue
@@ -1033,7 +1033,7 @@ func runRecipe(rec recipe, idx int, cfg string, thorough bool) []*outcome {
 					o.fail("stream-variant-fails:"+rec.name+":out-only", string(hr.stderr))
 				}
 			}
-			o.cases = append(o.cases, [3]string{"exit", vh.Bool(fr.exit == 0), fmt.Sprintf("%x", fr.exit)}, [3]string{"exit", vh.Bool(sr.exit == 0), fmt.Sprintf("%x", sr.exit)})
+			o.cases = append(o.cases, [3]string{"exit", "true", fmt.Sprintf("%x", fr.exit)}, [3]string{"exit", "true", fmt.Sprintf("%x", sr.exit)})
 			if fr.exit != 0 || sr.exit != 0 {
 				o.fail("json-command-fails:"+rec.name, fmt.Sprintf("file %d (%s) stdin %d (%s)", fr.exit, trunc(string(fr.stderr), 200), sr.exit, trunc(string(sr.stderr), 200)))
 				continue
@@ -1067,7 +1067,7 @@ func runRecipe(rec recipe, idx int, cfg string, thorough bool) []*outcome {
 			must(os.MkdirAll(sd, 0o755))
 			fr := runBin(cfg, dir, nil, subst(rec.args, "in.pdf", "", "fd", "")...)
 			sr := runBin(cfg, dir, sample, subst(rec.args, "-", "", "sd", "")...)
-			o.cases = append(o.cases, [3]string{"exit", vh.Bool(fr.exit == 0), fmt.Sprintf("%x", fr.exit)}, [3]string{"exit", vh.Bool(sr.exit == 0), fmt.Sprintf("%x", sr.exit)})
+			o.cases = append(o.cases, [3]string{"exit", "true", fmt.Sprintf("%x", fr.exit)}, [3]string{"exit", "true", fmt.Sprintf("%x", sr.exit)})
 			if fr.exit != sr.exit {
 				o.fail("dir-exit-status-differs:"+rec.name, fmt.Sprintf("file %d (%s) stdin %d (%s)", fr.exit, trunc(string(fr.stderr), 200), sr.exit, trunc(string(sr.stderr), 200)))
 				continue
@@ -1142,7 +1142,7 @@ func runRecipe(rec recipe, idx int, cfg string, thorough bool) []*outcome {
 				a = subst(rec.args, "-", "", "", "")
 			}
 			sr := runBin(cfg, dir, bads[bn], a...)
-			o.cases = append(o.cases, [3]string{"exit", vh.Bool(sr.exit == 0), fmt.Sprintf("%x", sr.exit)})
+			o.cases = append(o.cases, [3]string{"exit", "false", fmt.Sprintf("%x", sr.exit)})
 			switch {
 			case sr.exit == 0:
 				o.fail("invalid-input-exit-zero:"+rec.name+":"+bn, trunc(string(sr.stderr), 200))
@@ -1163,7 +1163,7 @@ func runRecipe(rec recipe, idx int, cfg string, thorough bool) []*outcome {
 			// file sink: a failed command leaves no output file
 			if rec.kind == "pdf" && bn == "garbage" {
 				fr := runBin(cfg, dir, bads[bn], subst(rec.args, "-", "bad-out.pdf", "", "")...)
-				o.cases = append(o.cases, [3]string{"exit", vh.Bool(fr.exit == 0), fmt.Sprintf("%x", fr.exit)})
+				o.cases = append(o.cases, [3]string{"exit", "false", fmt.Sprintf("%x", fr.exit)})
 				if _, err := os.Stat(filepath.Join(dir, "bad-out.pdf")); err == nil {
 					o.fail("failed-command-leaves-output-file:"+rec.name, "bad-out.pdf")
 				} else if fr.exit == 0 {
@@ -1192,7 +1192,7 @@ func runRecipe(rec recipe, idx int, cfg string, thorough bool) []*outcome {
 			a = subst(rec.args, "-", "", "", "")
 		}
 		sr := runBin(fresh, dir, sample, a...)
-		o.cases = append(o.cases, [3]string{"exit", vh.Bool(sr.exit == 0), fmt.Sprintf("%x", sr.exit)})
+		o.cases = append(o.cases, [3]string{"exit", "true", fmt.Sprintf("%x", sr.exit)})
 		if sr.exit != 0 {
 			o.fail("fresh-config-command-fails:"+rec.name, trunc(string(sr.stderr), 300))
 		} else if rec.kind == "pdf" {
